@@ -234,10 +234,12 @@ def run(eng, R):
         for pr in CovMat.props.values():
             if pr.fget is None:
                 continue
-            for n in pr.fget.node.body:
-                if isinstance(n, ast.If) and isinstance(n.test, ast.Compare) and len(n.test.ops) == 1 and isinstance(n.test.ops[0], ast.Is) \
-                        and isinstance(n.test.comparators[0], ast.Constant) and n.test.comparators[0].value is None and (self_attr(n.test.left) or '').startswith('_'):
-                    cache_fields.add(self_attr(n.test.left))
+            # a getter that stores a private field memoises it there (whatever the test around the store looks like)
+            for n in ast.walk(pr.fget.node):
+                if isinstance(n, ast.Assign):
+                    for t in n.targets:
+                        if (self_attr(t) or '').startswith('_'):
+                            cache_fields.add(self_attr(t))
         cache_fields = sorted(cache_fields)
         if len(cache_fields) < 3:
             raise AnalysisError("CovMat._invalidate_cache: expected >=3 cache fields, found %s" % cache_fields)
@@ -526,7 +528,7 @@ def _source_formulas(eng, R):
     check(eng, R, "Htot", M, "cor_mat", "return", "self._cov_mat.cor_mat", known=KM, what="correlation matrix of the same stored covariance")
     check(eng, R, "Htot", M, "cov_mat_inverse", "return", "self._cov_mat.I", known=KM, what="inverse of the same stored covariance")
     check(eng, R, "Htot", CM, "cor_mat", "assign", "self._mat / outer(sqrt(diag(self._mat)), sqrt(diag(self._mat)))", target="self._cor_mat", known=["self._mat"], what="correlation = covariance / outer(sigma, sigma)")
-    check(eng, R, "Htot", CM, "I", "assign", "np.linalg.inv(self._mat)", target="self._inverse", known=["self._mat", "linalg.pinv"], what="inverse of the stored matrix")
+    check(eng, R, "Htot", CM, "I", "store", "np.linalg.inv(self._mat)", target="self._inverse", known=["self._mat", "linalg.pinv"], what="inverse of the stored matrix")
     for cname, names in (("IndexedContainer", {"err": (None, "error"), "cov_mat": (None, "cov_mat"), "cov_mat_inverse": (None, "cov_mat_inverse"), "cor_mat": (None, "cor_mat")}),
                          ("XYContainer", {"x_err": (0, "error"), "y_err": (1, "error"), "x_cov_mat": (0, "cov_mat"), "y_cov_mat": (1, "cov_mat"), "x_cov_mat_inverse": (0, "cov_mat_inverse"),
                                           "y_cov_mat_inverse": (1, "cov_mat_inverse"), "x_cor_mat": (0, "cor_mat"), "y_cor_mat": (1, "cor_mat")})):
